@@ -1046,7 +1046,7 @@ def run_parts(run, parts, only=None, pendings=1, kinds=None, mandatory=True):
         finish_family(run, helper, [(d, {})], lambda info, cex: e3replay.two_calls_build(cex), mandatory)
     if "builder" in parts:
         kw = keywords_of(run)
-        res = builder_obligations(run, prog, run.tier, only=only)
+        res = builder_obligations(run, prog, run.tier, only=only) + function_batch_obligations(run, prog, run.tier, only=only)
         finish_family(run, helper, res, lambda info, cex: e3replay.builder_build(info, cex, kw), mandatory)
     note_mir(run, prog)
     run.assumptions += E3_ASSUMPTIONS
@@ -2172,3 +2172,54 @@ def finish_serializer(run, helper, res, mandatory=True):
             c.pop("_case", None)
         if d["verdict"] == "inconclusive":
             run.inconc(d["id"], d.get("reason", "no verdict"), mandatory=mandatory)
+
+
+def function_batch_obligations(run, prog, tier, only=None):
+    """Builder::with_function and with_functions (batches of 2) from an arbitrary registry."""
+    out = []
+    for m in (1, 2):
+        oid = f"with_functions_batch_{m}" if m > 1 else "with_function_single"
+        if only and only not in oid:
+            continue
+        world = BuilderWorld(prog, 0)
+        names = [z3.String(f"newfn{i}.name") for i in range(m)]
+
+        def body(ex, world=world, names=names, m=m):
+            if m == 1:
+                r = ex.call(None, "ruleset::builder::Builder::with_function::<OracleFn>", [world.builder, Obj("userfn", names[0])])
+            else:
+                r = ex.call(None, "ruleset::builder::Builder::with_functions::<std::vec::Vec<std::boxed::Box<dyn function::UserFunction + std::marker::Send + std::marker::Sync>>>",
+                            [world.builder, VecV([std.mkbox(Obj("userfn", names[i]), f"fn{i}") for i in range(m)])])
+            world.result_builder = r.fields[0] if isinstance(r, Agg) and r.ty == "Result" and r.variant == "Ok" else None
+            return r
+
+        def registry_is(expected):
+            def f(ex, r):
+                b = world.result_builder
+                if not (isinstance(r, Agg) and r.ty == "Result" and r.variant == "Ok" and isinstance(b, Agg) and b.ty == "Builder"):
+                    return False
+                reg = b.fields[1].fields[0]
+                kv = [l for l in reg.layers if l[0] == "kv"]
+                if len(kv) != len(expected) or len([l for l in reg.layers if l[0] == "abs"]) != 1:
+                    return False
+                conds = []
+                for l, nm in zip(kv, expected):
+                    fn = l[2]
+                    inner = ex.read_ref(std.unbox(ex, fn)) if isinstance(fn, Agg) and fn.ty == "Box" else None
+                    if not (isinstance(inner, Obj) and inner.kind == "userfn" and inner.key.eq(nm)):
+                        return False
+                    conds.append(l[1].t == nm)
+                return z3.And(conds) if conds else True
+            return f
+        cases = []
+        prev_ok = []
+        for i in range(m):
+            bad = z3.Or(is_reserved(names[i]), z3.Not(is_ident(names[i])))
+            dup = z3.Or([fn_registered(names[i])] + [names[j] == names[i] for j in range(i)])
+            cases.append(Case(f"item{i}-ill-formed", z3.And(prev_ok + [bad]), [], err_var("InvalidFunctionName", names[i])))
+            cases.append(Case(f"item{i}-duplicate", z3.And(prev_ok + [z3.Not(bad), dup]), [], err_var("DuplicateFunctionName", names[i])))
+            prev_ok = prev_ok + [z3.Not(bad), z3.Not(dup)]
+        cases.append(Case("all-accepted", z3.And(prev_ok), [], registry_is(names)))
+        d = check_paths(run, prog, world, oid, body, cases, "builder-step", meta={"batch": m, "registry": "arbitrary"})
+        out.append((d, {"op": "functions", "m": m}))
+    return out
